@@ -24,7 +24,7 @@ CLAIM = dict(
          "std-linked without `start`, no-libc executable started by tiny-std's own _start (real Environment::Inherit), "
          "no-libc no-alloc executable using the free function process::spawn::<N> - quick ~6900 runs, thorough ~50000, "
          "with the failure injected by ptrace in the caller or in the forked child and the caller/child interleaving forced to free / caller-first / child-first in a third of the runs each; the caller's use of the returned Child is a TLC-generated sequence of 1..3 calls over wait / try_wait / "
-         "try_wait-polled (all 39, with exit code, exit code >= 128 and SIGKILL; a status once reported must be reported again by every later call),  every other run uses Command::args/envs instead of arg/env, data flow through Stdio::MakePipe is checked against SpawnFlow.tla (all 3456 caller plans over write/close/read-to-EOF/wait x stdio tables x payload 0/1/65537 bytes model-checked; sampled plans executed: byte count + order-sensitive checksum per stream, stderr not crossed with stdout, EOF, self-blocking plans admitted to hang), each stdio pipe has exactly one descriptor on each side after spawn, the program's complete descriptor table holds nothing spawn created, Inherit/RawFd share the caller's open file description (offset footprint), the same Command is spawned twice (optionally with one more arg) and both children are judged, env entries with repeated key / empty value / '=' in value / empty key / no '=' are passed through,  helpers end by exit 0/3/7 or "
+         "try_wait-polled (all 39, with exit code, exit code >= 128 and SIGKILL; a status once reported must be reported again by every later call),  every other run uses Command::args/envs instead of arg/env, data flow through Stdio::MakePipe is checked against SpawnFlow.tla (all 3456 caller plans over write/close/read-to-EOF/wait x stdio tables x payload 0/1/65537 bytes model-checked; sampled plans executed: byte count + order-sensitive checksum per stream, stderr not crossed with stdout, EOF, self-blocking plans admitted to hang), each stdio pipe has exactly one descriptor on each side after spawn, the program's complete descriptor table holds nothing spawn created, Inherit/RawFd share the caller's open file description (offset footprint), Stdio::RawFd naming the caller's own descriptors 0/1/2 in every slot (63 tables: identity, 1>&2, 2>&1, shared, swaps) is judged on what the program observes, failures that do not go away (persistent injection for every step incl. ETXTBSY/EAGAIN/EINTR/ENOMEM on execve) and a real ETXTBSY (program file held open for writing) must end in Err, never in a spawn that does not return, the same Command is spawned twice (optionally with one more arg) and both children are judged, env entries with repeated key / empty value / '=' in value / empty key / no '=' are passed through,  helpers end by exit 0/3/7 or "
          "SIGKILL/SIGTERM; each trace is accepted or rejected by TLC at the property level and "
          "its per-process call sequence / result is compared with the model's prediction.",
     note="Trusted: TLC, SpawnAbs.tla, the tracer's view of the process tree (ptrace stops; per-task order is causal, "
@@ -35,5 +35,5 @@ CLAIM = dict(
          "step after the fork (sync-pipe read, wait4) need not carry an errno; a child that has reported its error and "
          "is about to exit is not 'running the caller's code' (reaping is not demanded). Not reached: "
          "running as a non-root caller (uid/gid settings: own ids and nobody/nogroup as root; refusals injected), signals during spawn, "
-         "two simultaneous failures, aarch64. Descriptor leaks of do_spawn belong to C12.",
+         "two simultaneous failures, aarch64. Descriptor leaks of do_spawn belong to C12. Known finding (genuine): a RawFd(0/1/2) whose descriptor an earlier slot has already replaced in the child picks up the replacement (sequential dup2).",
 )
